@@ -146,7 +146,7 @@ def run_agg(tape, prop, tier):
         return loop
 
     try:
-        loop = run_sim(main, salt=0, wall_offset=wall0, max_steps=4_000_000, wall_limit=20,
+        loop = run_sim(main, salt=0, wall_offset=wall0, max_steps=4_000_000, wall_limit=8,
                        late_seed=late_seed if late else None, late_prob=0.3, late_max=late_max)
         res.vtime = loop.time()
         res.steps = loop.steps
